@@ -158,6 +158,9 @@ func VBody(F *VFuncs, c Config, o *Outcome) (func(), error) {
 		}
 		return func() {
 			ins := mkIns()
+			if c.NilSlice && len(ins) == 0 {
+				ins = nil
+			}
 			out := fn(ins)
 			vsched.Spawn("cons0", consumer(out, o, 0))
 		}, nil
